@@ -2,10 +2,10 @@ SPECIFICATION Spec
 CONSTANTS
   Sources = {"S1", "S2"}
   Auths = {"U1", "U2"}
-  Idx = {0, 1}
+  Idx = {0, 1, 65535}
   Tps = {70000, 0, 7, 9999, 10000, 10001, 10002, 11111, 65535}
   Vias = {"direct", "wrapper", "mocks"}
   Signers = {"U3", "admin", "stranger"}
-  MaxDepth = 3
+  MaxDepth = 2
 VIEW View
 CHECK_DEADLOCK FALSE
